@@ -440,6 +440,9 @@ func (r *Runner) doRestart(op *Op) {
 		return
 	}
 	if _, f := r.activeDataFile(); f != nil {
+		if r.C.Prop == "C02" {
+			r.inc(fmt.Sprintf("restart_end_offset_kib_%02d", (f.Size%blockSz)/1024)) // spread of log-end offsets, per KiB
+		}
 		if d := f.Size % blockSz; d != 0 && blockSz-d <= 9 {
 			r.inc("restart_file_end_near_boundary")
 		} else if d == 0 && f.Size > 0 {
